@@ -299,8 +299,10 @@ func (checker *Checker) visitCompositeLikeDeclaration(declaration ast.CompositeL
 
 	for _, nestedComposite := range members.Composites() {
 		if compositeType.DefaultDestroyEvent != nil && nestedComposite.IsResourceDestructionDefaultEvent() {
-			// we enforce elsewhere that each composite can have only one default destroy event
-			checker.checkDefaultDestroyEvent(compositeType.DefaultDestroyEvent, nestedComposite, compositeType, declaration)
+			// we enforce elsewhere that each composite can have only one default destroy event.
+			// However, a redeclaration is still checked, so check the declaration against its own type
+			eventType := checker.Elaboration.CompositeDeclarationType(nestedComposite)
+			checker.checkDefaultDestroyEvent(eventType, nestedComposite, compositeType, declaration)
 		}
 		ast.AcceptDeclaration[struct{}](nestedComposite, checker)
 	}
